@@ -189,6 +189,9 @@ func without(l []string, drop string) []string {
 // returned slices are the caller's, so this must never influence a later call.
 func hostileCaller() {
 	pt.RecoveredPanics()
+	if msg := pt.ProbeNewAPI(8); msg != "" {
+		panic("a function the tree added to the API breaks an invariant: " + msg)
+	}
 	for _, b := range [][]byte{secp256k1.NewElement().Encode(), secp256k1.NewElement().EncodeUncompressed(), secp256k1.Base().Encode(),
 		secp256k1.Base().EncodeUncompressed(), secp256k1.NewElement().XCoordinate(), secp256k1.Order()} {
 		b = b[:cap(b)]
